@@ -22,6 +22,6 @@ for f in opened:
 table = subprocess.run(['python3', '/verif/mkseedmeta.py'], capture_output=True, text=True).stdout
 out += ['', '### 10.7 Seeded changes and the checks that catch them', '',
         'Fresh sub-agents, given only a property\'s text and their own scratch worktree, proposed three property-breaking changes per property that compile and pass the existing suite. Each was re-confirmed here with `seedverify.sh` (applies to HEAD, builds, whole suite passes, demonstration fails with / passes without) and stored under `seeded/<id>/` (patch.diff, demo_test.go.txt, notes.md, meta.json). `seedmatrix.sh` applies each to /repo, runs the quick check of its property (plus the cross checks noted) and reverts; `seeded/RESULTS.tsv` is its output on the last commit. Checks were strengthened where a seed was first missed: C08 history oracle (aliasing between earlier and later outputs), C03 strict canonical equality, C06 key pairs, C04 cache path and explicit UNSPECIFIED, C05 exact comments, C10 scenarios L–N, C14 file sequence and `maps.Keys` ownership, C15 package layouts, C18 odd-name context via C08. Dropped proposals: `seeded/DROPPED.md`.', '',
-        '**Second round (generalisation test).** After every first-round seed was caught, 20 fresh sub-agents (same brief, asked for two changes each on less-travelled code paths; `seeds_raw/AGENT_PROMPT_round2.txt`) produced 40 more changes (`C<NN>-4`, `C<NN>-5`), all confirmed. On first contact the checks caught 24 of the 40: the honest estimate of the catch rate for unseen changes at that point. The 16 misses were all *generator* gaps, not oracle gaps (the input that makes the change visible was not enumerated), and each led to a family or alphabet extension: a proto oneof named `type` next to an ordinary field (C01); two imports with the same default short name, method paths that repeat the base path (C02); inline enums described after nested messages, empty oneofs, keys carrying several markers (C04, which also catches C17-5); control characters followed by hex digits in option strings, declaration order of compiled files, partially described siblings (C05); external dependencies in sibling directories, shard keys (C07); a type whose reflection fails used twice, bytes / scalar scratch state (C10, plus a time-out on the free-running pass, which a deadlock used to hang); enums declared in hand-written proto files with gaps in their numbers (C12); appended options named `*_UNSPECIFIED` (C13); open any fields with a type list (C15); acronyms and digits in topic / method / service names (C16). Two more genuine defects surfaced on the way (the compiler panicked on `ext.singleForm`, map pair rules were dropped). After the extensions all 93 seeds were caught by a quick check. **Third round.** 11 more sub-agents (the properties with misses in round 2; three changes each, asked to depend on inputs a thorough test author would not have tried; `seeds_raw/AGENT_PROMPT_round3.txt`) produced 33 changes (`C<NN>-6..8`), all confirmed; 19 were caught on first contact (58%: the brief pushed the authors further off the beaten path, so the rate did not rise). The 14 misses again were generator gaps and were closed: `<>&` / U+2028 inside Any payloads (C01); imports of built-in j5 packages by short name and alias, source file names with dots, names with acronyms and digits (C02 / C07); uniqueness rules on arrays of message items (C04); types declared inside an entity block (C07); encoding of Any fields with only a proto payload (C10); two rule-carrying fields of the same kind in one object, with the partner absent or valid (C12); the google.api.http body as part of a method's wire identity (C13); cycles that only pass through oneofs, request properties whose names are prefixes of path parameters (C16, which also catches C17-8); command blocks with service options (C17). The sub-agents also reported defects of the *unchanged* tree they had tripped over; those in scope became findings (enum info import, json_name in printed text, map rules). All 126 seeds are caught by a quick check on the last commit (`seeded/RESULTS.tsv`).', '', table.rstrip(), '']
+        open('/verif/seedrounds.md').read().strip(), '', table.rstrip(), '']
 open('/verif/DESIGN.md', 'w').write(design.rstrip() + '\n\n' + '\n'.join(out) + '\n')
 print('DESIGN.md section 10 written: %d fixed, %d open' % (len(fixed), len(opened)))
